@@ -16,10 +16,13 @@ from artlib.common.VAT import VAT  # noqa: E402  (impl has pinned sys.path to $V
 RULE = ("cases = (generator kind, input matrix or point set, distance callable, call mode precomputed/default/custom); "
         "one evaluation = one VAT call on the implementation compared with the Lean model and checked by the oracle; "
         "a case is non-trivial when n >= 3 and the run met at least one tie (in the seed arg-max or in some step's "
-        "arg-min) or a duplicate sample, or the matrix is not symmetric; distinct by hash of (mode, matrix bit patterns)")
+        "arg-min) or a duplicate sample, or the matrix is not symmetric, or the distance callable is not a monotone "
+        "function of the straight-line distance between the samples (circular, feature-map, non-monotone, look-up "
+        "callables on 1..3 columns); distinct by hash of (mode, matrix bit patterns)")
 
 KINDS = ["int-ties", "int-ties", "float-sym", "points-grid", "points-dups", "points-float", "nonsym-int",
-         "nonsym-float", "custom-metric", "constant", "two-level", "special-values"]
+         "nonsym-float", "custom-metric", "constant", "two-level", "special-values", "custom-callable",
+         "custom-callable"]
 
 METRICS = {
     "cityblock": lambda X: pdist(X, "cityblock"),
@@ -28,6 +31,132 @@ METRICS = {
     "hamming": lambda X: pdist(X, "hamming"),
     "euclidean-explicit": lambda X: pdist(X, "euclidean"),
 }
+
+
+# ---- user-style distance callables (anything that maps the data to a condensed vector): VAT must Prim-order
+# ---- whatever dissimilarities the callable returns, whether or not they agree with the geometry of the columns.
+# ---- Every callable is addressed by a name "family:parameter" so that a replay can rebuild it.
+
+def _rows_pairs(X):
+    X = np.asarray(X, dtype=float)
+    i, j = np.triu_indices(X.shape[0], k=1)
+    return X, i, j
+
+
+def _circular(period):
+    """arc length on a circle of circumference `period`, per column, summed (angles, hours, headings ...)"""
+    def f(X):
+        X, i, j = _rows_pairs(X)
+        d = np.abs(X[i] - X[j]) % period
+        return np.minimum(d, period - d).sum(axis=1)
+    return f
+
+
+FMAPS = {
+    "sin": np.sin, "square": np.square, "abs": np.abs, "neg": np.negative,
+    "mod3": lambda x: np.mod(x, 3.0), "tent": lambda x: np.abs(np.mod(x, 2.0) - 1.0),
+}
+
+
+def _fmap(fname):
+    """cityblock distance after a (non-injective, non-monotone) feature map of every coordinate"""
+    g = FMAPS[fname]
+
+    def f(X):
+        X, i, j = _rows_pairs(X)
+        Y = g(X)
+        return np.abs(Y[i] - Y[j]).sum(axis=1)
+    return f
+
+
+GDIST = {
+    "bump": lambda e: e * np.exp(-e),          # rises, then falls: far pairs look close
+    "mod": lambda e: np.mod(e, 2.5),
+    "inverse": lambda e: 1.0 / (1.0 + e),      # a similarity handed in as "distance"
+    "negated": lambda e: -e,                   # negative entries, maximum on the diagonal
+    "steps": lambda e: np.floor(e),            # coarse: many ties
+}
+
+
+def _gdist(gname):
+    """a non-monotone function of the euclidean distance"""
+    g = GDIST[gname]
+    return lambda X: g(pdist(np.asarray(X, dtype=float), "euclidean"))
+
+
+def _discrete(_):
+    def f(X):
+        X, i, j = _rows_pairs(X)
+        return np.any(X[i] != X[j], axis=1).astype(float)
+    return f
+
+
+def _column(which):
+    """only one column counts (a pseudo-metric: distinct samples at distance 0)"""
+    c = {"first": 0, "last": -1}[which]
+
+    def f(X):
+        X, i, j = _rows_pairs(X)
+        return np.abs(X[i, c] - X[j, c])
+    return f
+
+
+def _table(seed):
+    """dissimilarities looked up per pair of sample numbers (expert judgement), unrelated to the columns"""
+    import random as _random
+
+    def f(X):
+        n = np.asarray(X).shape[0]
+        q = _random.Random(int(seed))
+        pool = [1.0, 2.0, 3.0, 0.5, 7.25] if q.random() < 0.5 else None
+        return np.array([q.choice(pool) if pool else q.random() for _ in range(n * (n - 1) // 2)], dtype=float)
+    return f
+
+
+FAMILIES = {"circular": lambda p: _circular(float.fromhex(p)), "fmap": _fmap, "gdist": _gdist,
+            "discrete": _discrete, "column": _column, "table": _table}
+PERIODS = [2.0 * np.pi, 4.0, 1.0, 360.0, 3.0]
+
+
+def metric_by_name(name):
+    if name in METRICS:
+        return METRICS[name]
+    fam, _, par = name.partition(":")
+    return FAMILIES[fam](par)
+
+
+def callable_rows(r, n, d, period):
+    """low-dimensional data for the custom callables: angles on the circle, lattice points (ties), plain floats"""
+    style = r.choice(["angles", "angles", "coarse-angles", "lattice", "floats"])
+    if style == "angles":
+        rows = [[r.random() * period for _ in range(d)] for _ in range(n)]
+    elif style == "coarse-angles":
+        m = r.choice([4, 6, 8, 12])
+        rows = [[r.randrange(m) * (period / m) for _ in range(d)] for _ in range(n)]
+    elif style == "lattice":
+        rows = [[float(r.randint(-3, 5)) for _ in range(d)] for _ in range(n)]
+    else:
+        rows = [[(r.random() - 0.5) * 8.0 for _ in range(d)] for _ in range(n)]
+    X = np.array(rows, dtype=float).reshape(n, d)
+    if n >= 3 and r.random() < 0.3:
+        X[r.randrange(n)] = X[r.randrange(n)]
+    return X, style
+
+
+def agrees_with_geometry(X, D) -> bool:
+    """is D a monotone (non-decreasing) function of the euclidean distance between the rows of X?"""
+    n = X.shape[0]
+    if n < 3:
+        return True
+    e = pdist(X, "euclidean")
+    i, j = np.triu_indices(n, k=1)
+    c = np.asarray(D, dtype=float)[i, j]
+    o = np.lexsort((c, e))
+    e, c = e[o], c[o]
+    if np.any(np.diff(c) < 0):
+        return False
+    same = np.diff(e) == 0             # the same distance must give the same dissimilarity
+    return not np.any(same & (np.diff(c) != 0))
 
 
 # ------------------------------------------------------------------ generators
@@ -69,6 +198,25 @@ def make_case(r, kind, n):
         name = r.choice(sorted(METRICS))
         D = squareform(METRICS[name](X))
         return dict(kind=kind, D=D, X=X, metric=name, rational=False)
+    if kind == "custom-callable":
+        d = 1 if r.random() < 0.6 else r.randint(2, 3)
+        fam = r.choice(["circular", "circular", "fmap", "gdist", "discrete", "column", "table"])
+        period = r.choice(PERIODS)
+        if fam == "circular":
+            name = "circular:" + float(period).hex()
+        elif fam == "fmap":
+            name = "fmap:" + r.choice(sorted(FMAPS))
+        elif fam == "gdist":
+            name = "gdist:" + r.choice(sorted(GDIST))
+        elif fam == "discrete":
+            name = "discrete:"
+        elif fam == "column":
+            name = "column:" + r.choice(["first", "last"])
+        else:
+            name = "table:" + str(r.randrange(10 ** 6))
+        X, style = callable_rows(r, n, d, period)
+        D = squareform(metric_by_name(name)(X))
+        return dict(kind=kind, D=D, X=X, metric=name, rational=False, style=style)
     if kind == "nonsym-int":
         k = r.choice([1, 2, 4, 9])
         D = np.array([[float(r.randint(0, k)) for _ in range(n)] for _ in range(n)], dtype=float).reshape(n, n)
@@ -190,7 +338,7 @@ def call_impl(ctx, mode, arg, metric, rep):
             elif mode == "default":
                 out, idx = VAT(arg)
             else:
-                out, idx = VAT(arg, distance_metric=METRICS[metric])
+                out, idx = VAT(arg, distance_metric=metric_by_name(metric))
     except Exception as e:  # noqa: BLE001
         ctx.issue("violation", f"VAT[{mode}]:raised:{exc_enum(e)}", f"VAT raised {e!r}", rep)
         return None
@@ -264,8 +412,18 @@ def run(ctx):
                 continue
             out, idx = res
             tags = oracle(ctx, np.asarray(D), out, idx, mode, rep)
+            if mode == "custom":
+                dcols = "d=1" if X.shape[1] == 1 else "d>=2"
+                cov.hit(f"custom:{dcols}")
+                cov.hit("callable:" + metric.partition(":")[0])
+                if kind == "custom-callable":
+                    cov.hit("callable-data:" + c["style"])
+                if not agrees_with_geometry(X, np.asarray(D)):
+                    tags.add("callable-not-monotone-in-distance")
+                    cov.hit(f"callable-not-monotone-in-distance:{dcols}")
             tags_all |= tags
-            nontrivial = n >= 3 and bool(tags & {"tie-in-seed", "tie-in-step", "duplicates", "nonsymmetric"})
+            nontrivial = n >= 3 and bool(tags & {"tie-in-seed", "tie-in-step", "duplicates", "nonsymmetric",
+                                                 "callable-not-monotone-in-distance"})
             cov.case((mode, base["D_hex"]), nontrivial)
             cov.hit(f"mode:{mode}")
             lines.append(line)
@@ -288,7 +446,8 @@ def run(ctx):
         compare(ctx, D, rational, out, idx, mo, mode, dict(rep, model=mo))
     # the branches the theorems talk about must have been met
     for must in ("tie-in-seed", "tie-in-step", "tie-in-step:row-major-rule-decides", "duplicates",
-                 "nonsymmetric", "seed-not-row0", "symmetric-zero-diagonal"):
+                 "nonsymmetric", "seed-not-row0", "symmetric-zero-diagonal", "callable-not-monotone-in-distance",
+                 "callable-not-monotone-in-distance:d=1", "callable:circular", "custom:d=1"):
         if cov.branches.get(must, 0) == 0:
             cov.hit("unreached:" + must)
             ctx.log.append(f"coverage: branch {must!r} not reached in this run")
